@@ -114,6 +114,8 @@ def const_int(e, depth=0):
     if e.k == "call" and e.a[0].name == "size_of" and not e.a[1]:
         import shapes
         return shapes.fold_const(e)
+    if e.k == "call" and e.a[0].name == "len" and len(e.a[1]) == 1 and strip(e.a[1][0]).k == "const" and isinstance(strip(e.a[1][0]).a[0], bytes):
+        return len(strip(e.a[1][0]).a[0])  # the length of a string / byte-string literal
     if e.k == "field" and e.a[1] == "0" and e.a[0].k == "binop" and e.a[0].a[0].endswith("WithOverflow"):
         e = e.a[0]
     if e.k == "binop":
